@@ -5,7 +5,7 @@
  "enforce": ["HMAC_SHA256_Final_internal"],
  "replace": ["SHA256_Update_internal", "SHA256_Final_internal"],
  "annotate": ["alg/sha256.c"],
- "defines": ["VERIF_HALLOC", "VERIF_HASH_ABS", "SHA_MAXOBJ=130"],
+ "defines": ["VERIF_HALLOC", "VERIF_HASH_ABS", "SHA_MAXOBJ=0xffffffff"],
  "loop_contracts": false,
  "timeout": 300,
  "assumptions": ["hash layer abstracted at the call level (VERIF_HASH_ABS); L-md"]
